@@ -2,7 +2,7 @@ from lanes import *  # noqa
 
 PROP = {
     "level": "exploration",
-    "level_text": "Seeded exploration with a routing table written from the statement as oracle: the real Otlp emitter is built with each of the eight subsets of configured signals over HTTP+JSON, HTTP+protobuf and gRPC (gzip on/off) against a scripted local collector, and ~10^4 (quick) to ~3x10^5 (thorough) events drawn from kind x extent x metric-value x aggregation classes are each traced by a unique vid to the endpoint(s) that received a record for them; the discard counter is compared with the number of events no configured signal could take. The configuration space (8 subsets x 3 transports x gzip) is enumerated completely, the event classes are sampled. A second section sends more than 3.5 MiB per signal so that a batch is split into several requests, lets the collector acknowledge the first request(s) of the batch and fail a later one with every retryable failure kind of the transport, and requires that no event is in two acknowledged requests and that every request carrying an event is on the endpoint of its one signal. Held-on-what-was-observed, not a proof over all events.",
+    "level_text": "Seeded exploration with a routing table written from the statement as oracle: the real Otlp emitter is built with each of the eight subsets of configured signals over HTTP+JSON, HTTP+protobuf and gRPC (gzip on/off) against a scripted local collector, and ~10^4 (quick) to ~3x10^5 (thorough) events drawn from kind x extent x metric-value x aggregation classes are each traced by a unique vid to the endpoint(s) that received a record for them; the discard counter is compared with the number of events no configured signal could take. The configuration space (8 subsets x 3 transports x gzip) is enumerated completely, the event classes are sampled. A second section sends more than 3.5 MiB per signal so that a batch is split into several requests, lets the collector acknowledge the first request(s) of the batch and fail a later one with every retryable failure kind of the transport, and requires that no event is in two acknowledged requests and that every request carrying an event is on the endpoint of its one signal. Two further sections: (i) a request answered with a complete 200 head that announces a body (content-length or chunked; gzip on/off; small and split batches) after which the collector closes the connection gracefully before or inside that body - the events of that request must not be exported again, asserted only when the re-send happens in every one of 4 repetitions (request timeout 10 s for this section); (ii) 4..16 threads emitting at the same moment through one emitter with a proper subset of signals, tens of thousands of undeliverable events per thread plus a bounded number of exported ones - the discard counter must match the routing table exactly and the exported events are accounted as usual. Held-on-what-was-observed, not a proof over all events.",
     "level_note": "Trusts the scripted collector in harness/monx/src/shared/collector.rs (tokio, h2, flate2) and the prost / serde_json decoders used to read the requests; the routing table in harness/monx/src/bin/c14.rs is written from the property statement.",
     "technique": "runtime monitoring: vid accounting at a scripted local OTLP collector against a reference routing table, plus the emitter's event_discarded counter",
     "assumptions": [
@@ -11,6 +11,8 @@ PROP = {
         "the kind of an event is what its `evt_kind` value denotes, however it is carried (typed, owned / shared buffer, Display of a foreign type, String through serde / sval, padded or mixed-case text, ambient context frame)",
         "an empty range extent is a range (documented on Extent::range); upper-case / mixed-case kind text denotes the kind (C15 requires the kind parser to accept it)",
         "split-batch section: an unacknowledged attempt and its acknowledged retry may carry the same events (at-least-once); only events in two ACKNOWLEDGED requests count as exported twice, and only when the emitter has seen every acknowledgement the collector wrote; back-off and request timeout are shortened through the cfg(emit_rs_emit_verif) hooks for that section only",
+        "a 2xx status line is an acknowledgement whatever happens to the response body afterwards (hang: re-send left open; graceful close: must not be re-sent, judged only if it happens in all 4 repetitions, otherwise observed-but-unjudged)",
+        "concurrent section: exported events stay below the channel capacity (10 000 per signal) so that no overflow truncation interferes; the emitter's other internal counters with an exact fault-free value are recorded as evidence, not judged",
         "a scenario whose flush times out or whose requests cannot be decoded is inconclusive (encoding fidelity is C13)",
     ],
     "lanes": [
